@@ -7,8 +7,9 @@ from .. import gen
 
 PID = "C13"
 LEVEL = "exploration"
-RULE = ("full-factorial generators over random level lists / bounds (multiset equality with itertools.product); Plackett-Burman "
-        "for every factor count 1..23 (exhaustive) with random bounds: level set, run count, balance, pairwise orthogonality; "
+RULE = ("full-factorial generators over random level lists / bounds -- levels as floats, ints, integers above 2**53, strings, bools "
+        "and mixtures, compared type-aware -- (multiset equality with itertools.product); Plackett-Burman "
+        "for every factor count 1..23 (exhaustive) with random bounds (incl. neighbouring integers above 2**53): level set, run count, balance, pairwise orthogonality; "
         "Box-Behnken n=3..9: exact corner multiset; GSD for all level lists (2..6 levels, 2..5 factors) x reductions 2..5: subset, "
         "duplicate-free, complementary designs disjoint and covering. non-trivial = design with >=2 factors; distinct by "
         "(generator, levels/bounds, reduction)")
